@@ -25,3 +25,27 @@ Theorem C15_exit_status_or : forall R (status : R -> bool) rs,
   exit_status R status rs = true <-> exists x, In x rs /\ status x = true.
 Proof. exact exit_status_or. Qed.
 Print Assumptions C15_exit_status_or.
+
+Theorem C15_entry_is_single_run : forall F R (f : F -> R) stop files i r,
+  nth_error (main_seq F R f stop files) i = Some r ->
+  exists x, nth_error files i = Some x /\ r = f x /\ main_seq F R f stop [x] = [r].
+Proof. exact entry_is_single_run. Qed.
+Print Assumptions C15_entry_is_single_run.
+
+Theorem C15_neighbours_irrelevant : forall F R (f : F -> R) stop files files' i r r',
+  nth_error files i = nth_error files' i ->
+  nth_error (main_seq F R f stop files) i = Some r ->
+  nth_error (main_seq F R f stop files') i = Some r' -> r = r'.
+Proof. exact neighbours_irrelevant. Qed.
+Print Assumptions C15_neighbours_irrelevant.
+
+Theorem C15_output_in_command_line_order : forall F R (f : F -> R) stop files, exists rest,
+  map f files = main_seq F R f stop files ++ rest /\
+  (rest <> [] -> existsb stop (main_seq F R f stop files) = true).
+Proof. exact seq_is_prefix_in_order. Qed.
+Print Assumptions C15_output_in_command_line_order.
+
+Theorem C15_exit_status_order_free : forall R (status : R -> bool) rs rs',
+  Permutation rs rs' -> exit_status R status rs = exit_status R status rs'.
+Proof. exact exit_status_perm. Qed.
+Print Assumptions C15_exit_status_order_free.
